@@ -468,6 +468,12 @@ class Unknown:
 UNK = Unknown()
 
 
+class _FrozenDict(dict):
+    """a constant dictionary value of eval3 (hashable so that it can sit in sets of outcomes)"""
+    def __hash__(self):
+        return hash(tuple(sorted(map(repr, self.items()))))
+
+
 def eval3(e, env, atoms=None):
     """Evaluate expression `e` to a Python constant or UNK.  `env`: name -> constant/UNK; `atoms`: callable
     (expr) -> constant | UNK for rule-specific facts (e.g. 'rejectHandle is not None' -> True)."""
@@ -490,6 +496,35 @@ def eval3(e, env, atoms=None):
             return tuple(vals) if not isinstance(e, ast.Set) else frozenset(vals)
         except TypeError:
             return UNK
+    if isinstance(e, ast.Dict) and all(k is not None for k in e.keys):
+        ks = [eval3(k, env, atoms) for k in e.keys]
+        vs = [eval3(v, env, atoms) for v in e.values]
+        if any(x is UNK for x in ks + vs):
+            return UNK
+        try:
+            return _FrozenDict(zip(ks, vs))
+        except TypeError:
+            return UNK
+    if isinstance(e, ast.Subscript) and not isinstance(e.slice, ast.Slice):
+        c_ = eval3(e.value, env, atoms)
+        i_ = eval3(e.slice, env, atoms) if c_ is not UNK else UNK
+        if c_ is not UNK and i_ is not UNK and isinstance(c_, (tuple, str, _FrozenDict)):
+            try:
+                return c_[i_]
+            except Exception:
+                return UNK
+        return UNK
+    if isinstance(e, ast.Call) and isinstance(e.func, ast.Attribute) and e.func.attr == 'get' and 1 <= len(e.args) <= 2 and not e.keywords:
+        c_ = eval3(e.func.value, env, atoms)
+        if isinstance(c_, _FrozenDict):
+            k_ = eval3(e.args[0], env, atoms)
+            d_ = eval3(e.args[1], env, atoms) if len(e.args) == 2 else None
+            if k_ is not UNK and (len(e.args) == 1 or d_ is not UNK):
+                try:
+                    return c_.get(k_, d_)
+                except TypeError:
+                    return UNK
+        return UNK
     if isinstance(e, ast.Call) and isinstance(e.func, ast.Name) and e.func.id == 'bool' and len(e.args) == 1 and not e.keywords:
         v = eval3(e.args[0], env, atoms)
         try:
